@@ -71,6 +71,10 @@ def check_rows(R, rule, entry, outs, rows, state_of=None, must_exist=True):
             found = o['ret']
             if r.get('ret') is not None:
                 ok = match(found, r['ret'], {})
+                if not ok and found in (T.TRUE, T.FALSE) and r['ret'][0] in ('call', 'eq', 'eq0', 'ge0', 'not', 'and', 'or', 'isvar'):
+                    # a boolean result split over two paths (`matches!(x, P if c)`): the constant returned on this path is the value of
+                    # the expected condition under the path's guards
+                    ok = solver.entails(list(o['pc']) + list(r['cond']), r['ret'] if found == T.TRUE else T.bnot(r['ret']))
             exp_txt = T.short(r['ret']) if r.get('ret') is not None else '(any)'
             fnd_txt = T.short(found)
             if ok and r.get('state') is not None and state_of is not None:
